@@ -115,6 +115,9 @@ pub struct Schedule {
     pub pending_permille: u32,
     /// executor-side spurious polls: probability in 1/1000 per loop iteration
     pub spurious_permille: u32,
+    /// the executor hands out a new waker at every poll and ignores wake-ups through older ones
+    /// (legal: a future must wake the waker of its most recent poll)
+    pub strict_wakers: bool,
     pub explicit: bool,
     pub futures: BTreeMap<u32, Script>,
     pub streams: BTreeMap<(u32, u32), Script>,
@@ -216,12 +219,14 @@ impl Schedule {
             "futures": futures,
             "streams": streams,
             "spurious_polls": self.spurious.iter().collect::<Vec<_>>(),
+            "strict_wakers": self.strict_wakers,
         })
     }
 
     pub fn from_json(j: &J) -> Result<Schedule, String> {
         let mut s = Schedule {
             explicit: true,
+            strict_wakers: j.get("strict_wakers").and_then(|v| v.as_bool()).unwrap_or(false),
             ..Default::default()
         };
         let script = |e: &J| -> Result<Script, String> {
@@ -295,6 +300,8 @@ pub struct Stats {
     pub timer_fires: u64,
     pub spurious_polls: u64,
     pub late_wakes: u64,
+    /// strict-waker mode: wake-ups through a waker older than the most recent poll's (ignored)
+    pub stale_wakes: u64,
     pub futures_created: u64,
     pub streams_created: u64,
     pub futures_dropped_incomplete: u64,
@@ -806,9 +813,19 @@ impl AsyncObjectValue for AsyncObj {
 
 // ------------------------------------------------------------------ the executor
 
-struct TaskWaker {
+struct TaskState {
     woken: AtomicBool,
     wakes: AtomicU64,
+    /// generation of the waker handed out at the most recent poll
+    current: AtomicU64,
+    strict: bool,
+    stale_wakes: AtomicU64,
+}
+
+/// One waker per poll in strict mode: a wake-up through an older generation is counted and ignored
+struct TaskWaker {
+    state: Arc<TaskState>,
+    generation: u64,
 }
 
 impl Wake for TaskWaker {
@@ -816,8 +833,13 @@ impl Wake for TaskWaker {
         self.wake_by_ref()
     }
     fn wake_by_ref(self: &Arc<Self>) {
-        self.woken.store(true, Ordering::SeqCst);
-        self.wakes.fetch_add(1, Ordering::SeqCst);
+        let st = &self.state;
+        if st.strict && self.generation != st.current.load(Ordering::SeqCst) {
+            st.stale_wakes.fetch_add(1, Ordering::SeqCst);
+            return;
+        }
+        st.woken.store(true, Ordering::SeqCst);
+        st.wakes.fetch_add(1, Ordering::SeqCst);
     }
 }
 
@@ -837,12 +859,18 @@ pub fn run_to_completion<T>(
     poll_cap: u64,
 ) -> RunEnd<T> {
     let mut fut = fut;
-    let task = Arc::new(TaskWaker {
+    let strict = shared.lock().unwrap().schedule.strict_wakers;
+    let task = Arc::new(TaskState {
         woken: AtomicBool::new(true), // the first poll
         wakes: AtomicU64::new(0),
+        current: AtomicU64::new(0),
+        strict,
+        stale_wakes: AtomicU64::new(0),
     });
-    let waker = Waker::from(task.clone());
-    let mut cx = Context::from_waker(&waker);
+    let mut waker = Waker::from(Arc::new(TaskWaker {
+        state: task.clone(),
+        generation: 0,
+    }));
     let mut iteration: u32 = 0;
     let mut polls: u64 = 0;
     loop {
@@ -866,10 +894,19 @@ pub fn run_to_completion<T>(
                 g.stats.polls_root += 1;
                 g.event(|| format!("poll root ({})", if woken { "woken" } else { "spurious" }));
             }
+            if strict {
+                let generation = task.current.fetch_add(1, Ordering::SeqCst) + 1;
+                waker = Waker::from(Arc::new(TaskWaker {
+                    state: task.clone(),
+                    generation,
+                }));
+            }
+            let mut cx = Context::from_waker(&waker);
             match fut.as_mut().poll(&mut cx) {
                 Poll::Ready(v) => {
                     let mut g = shared.lock().unwrap();
                     g.stats.virtual_ns = g.now;
+                    g.stats.stale_wakes += task.stale_wakes.load(Ordering::SeqCst);
                     // wake-ups delivered after completion are legal; count them
                     while let Some(std::cmp::Reverse((_, _, t))) = g.queue.pop() {
                         g.timers[t].fired = true;
